@@ -38,6 +38,9 @@ pub enum Ann {
     PeerPlusForeign(u8, u8),
     /// peer i says goodbye: its records with TTL 0 (RFC 6762 10.1); it may advertise again later
     Goodbye(u8),
+    /// one packet carrying, in this order: a host record under .local, a record of another service under
+    /// _tcp/_udp.local, the service PTR, peer j's records and peer i's records (deep suffix staircases)
+    Combined(u8, u8),
 }
 
 #[derive(Debug, Clone, PartialEq, Eq, Hash, serde::Serialize, serde::Deserialize)]
@@ -201,6 +204,32 @@ fn check(d: &Disc, case: &mut Case) -> Result<(), Fail> {
                 let hs: Vec<&str> = hosts.iter().map(|s| s.as_str()).take(1 + (*w as usize % 3)).collect();
                 (announcement_with(info_of(p, &p.name), &owner, d.ttl, &hs)?, Some(e))
             }
+            Ann::Combined(i, j) => {
+                noise += 1;
+                let pi = &d.peers[*i as usize % d.peers.len()];
+                let pj = &d.peers[*j as usize % d.peers.len()];
+                let mut pk = Packet::new_reply(1);
+                let host = Name::new("printer.local").unwrap().into_owned();
+                pk.answers.push(ResourceRecord::new(host, CLASS::IN, d.ttl, RData::A(simple_dns::rdata::A { address: 0x0a0a0a0a })));
+                let other = Name::new(&format!("x._other.{}", service.splitn(2, '.').nth(1).unwrap())).unwrap().into_owned();
+                pk.answers.push(ResourceRecord::new(other, CLASS::IN, d.ttl, RData::TXT(simple_dns::rdata::TXT::new().with_string("o=1").unwrap())));
+                let mut msgs_expected = None;
+                for p in [pj, pi] {
+                    let owner = format!("{}.{}", p.name, service);
+                    let owner_name = Name::new(&owner).unwrap().into_owned();
+                    pk.answers.push(ResourceRecord::new(service_name.clone(), CLASS::IN, d.ttl, RData::PTR(PTR(owner_name.clone()))));
+                    // the peer's fixed record set (created on first use)
+                    let _ = announcement(info_of(p, &p.name), &owner, d.ttl)?;
+                    let recs = RECORDS.with(|r| r.borrow().get(&owner).cloned()).unwrap_or_default();
+                    for mut r in recs {
+                        r.ttl = d.ttl;
+                        pk.answers.push(r);
+                    }
+                    expected.insert(owner, (Some(p.name.clone()), summary_of_peer(p)));
+                    msgs_expected = Some((None, summary_of_peer(p)));
+                }
+                (ser_compressed(&pk)?, if pi.name == pj.name { msgs_expected } else { Some((None, (Default::default(), Default::default(), Default::default()))) })
+            }
             Ann::Goodbye(i) => {
                 noise += 1;
                 let p = &d.peers[*i as usize % d.peers.len()];
@@ -251,6 +280,9 @@ fn check(d: &Disc, case: &mut Case) -> Result<(), Fail> {
             }
             match expect_msg {
                 None => ensure!(msgs.is_empty(), "c15:channel-noise", "{:?}: a discovery message {:?} was delivered for records that must never be reported", ann, msgs),
+                Some(_) if matches!(ann, Ann::Combined(..)) => {
+                    // one packet, several owners: the statement does not say how the channel groups them
+                }
                 Some((name, sum)) => {
                     ensure!(msgs.len() == 1, "c15:channel-count", "{:?}: {} discovery messages delivered", ann, msgs.len());
                     if let Some(n) = name {
@@ -317,6 +349,9 @@ fn attr_strategy() -> BoxedStrategy<Vec<(String, Option<String>)>> {
 }
 
 fn strategy(_t: Tier) -> BoxedStrategy<Disc> {
+    let many_ips = vec((any::<bool>(), vec(any::<u8>(), 16).prop_map(Bytes)), 18..40);
+    let many_ports = vec(any::<u16>(), 5..12);
+    let big_peer = (many_ips, many_ports, attr_strategy());
     let peer = (
         vec(
             prop_oneof![
@@ -352,8 +387,9 @@ fn strategy(_t: Tier) -> BoxedStrategy<Disc> {
         3 => (0u8..5).prop_map(Ann::Deeper),
         3 => (0u8..5, 0u8..12).prop_map(|(i, w)| Ann::PeerPlusForeign(i, w)),
         2 => (0u8..5).prop_map(Ann::Goodbye),
+        2 => (0u8..5, 0u8..5).prop_map(|(i, j)| Ann::Combined(i, j)),
     ];
-    (0u8..2, vec(peer, 1..=5), vec(ann, 1..10), any::<bool>(), select(vec![60u32, 120, 4500]), any::<u8>(), proptest::bool::weighted(0.35))
+    (0u8..2, vec(prop_oneof![12 => peer.boxed(), 1 => big_peer.boxed()], 1..=5), vec(ann, 1..10), any::<bool>(), select(vec![60u32, 120, 4500]), any::<u8>(), proptest::bool::weighted(0.35))
         .prop_map(|(service, peers, seq, channel, ttl, rot, use_async)| {
             let names = peer_names();
             let peers = peers
@@ -396,7 +432,7 @@ fn check_escape(s: &String, case: &mut Case) -> Result<(), Fail> {
 pub fn def() -> CheckDef {
     CheckDef {
         id: "C15",
-        rule: "model-based: a watched service (_srv._tcp.local or _my._udp.local), a discoverer named 'self', 1..5 peers with distinct valid single-label names, 0..4 IPv4/IPv6 addresses, 0..4 ports and attribute lists (values absent / empty / non-empty), and sequences of 1..9 announcements: peers (repeated), the discoverer's own instance, PTR records owned by the service name, the peers' records under textually colliding foreign services (_srvx._tcp.local, x_srv._tcp.local, _srv._tcpx.local, _tcp.local) and under deeper names (a.<peer>.<service>), and peer announcements whose additional section also carries A/SRV/TXT records owned by names outside the service (a host name, another service's instance, the service name itself), and goodbyes (TTL 0) after which the peer may advertise again. Each announcement is assembled like ServiceDiscovery::announce (into_records, answers + address records as additionals), serialised with build_bytes_vec_compressed, parsed, ingested with the receive loop's add_response_to_resources — the sync one, or (35% of the cases) the async-tokio copy driven by a current-thread runtime — with and without an on_discovery channel, and read back exactly as get_known_services does. Oracle: every advertised peer is reported exactly once with exactly its name, address set, port set and attribute map; the number of reported instances equals the number of advertised strict-subdomain owners and each equals one owner's record set; nothing for the discoverer, the service name or foreign services; channel messages equal the instance just announced and none is delivered for records that must not be reported. Separately, unescape(escape(s)) == s for generated strings biased to '.' and '\\\\'. Non-trivial = >= 2 peers, a multi-member set, or noise present",
+        rule: "model-based: a watched service (_srv._tcp.local or _my._udp.local), a discoverer named 'self', 1..5 peers with distinct valid single-label names, 0..4 IPv4/IPv6 addresses, 0..4 ports and attribute lists (values absent / empty / non-empty), and sequences of 1..9 announcements: peers (repeated), the discoverer's own instance, PTR records owned by the service name, the peers' records under textually colliding foreign services (_srvx._tcp.local, x_srv._tcp.local, _srv._tcpx.local, _tcp.local) and under deeper names (a.<peer>.<service>), and peer announcements whose additional section also carries A/SRV/TXT records owned by names outside the service (a host name, another service's instance, the service name itself), goodbyes (TTL 0) after which the peer may advertise again, and combined packets (host record, other service, service PTR, two peers in one compressed message). One peer in thirteen has 18..39 addresses and 5..11 ports. Each announcement is assembled like ServiceDiscovery::announce (into_records, answers + address records as additionals), serialised with build_bytes_vec_compressed, parsed, ingested with the receive loop's add_response_to_resources — the sync one, or (35% of the cases) the async-tokio copy driven by a current-thread runtime — with and without an on_discovery channel, and read back exactly as get_known_services does. Oracle: every advertised peer is reported exactly once with exactly its name, address set, port set and attribute map; the number of reported instances equals the number of advertised strict-subdomain owners and each equals one owner's record set; nothing for the discoverer, the service name or foreign services; channel messages equal the instance just announced and none is delivered for records that must not be reported. Separately, unescape(escape(s)) == s for generated strings biased to '.' and '\\\\'. Non-trivial = >= 2 peers, a multi-member set, or noise present",
         assumptions: vec![
             "driven through simple_mdns::verif (hook): ResourceRecordManager, add_response_to_resources of the sync service discovery, InstanceInformation::from_records",
             "for deeper names only the record sets are compared (the statement does not define their instance name)",
